@@ -742,6 +742,15 @@ def gen_biokernel(repo):
                              [("r", "list Z"), ("cost_matrix_1d", "list Z"), ("n", "Z")], ["r"], "Z * list Z")
     if not eff:
         raise Unsupported("_improve_one_ranking: expected a loop")
+    out += text + "\n"
+    # the jitted driver: for each departure (a slice of the flattened array), its initial score + the local search
+    imp = py2imp.Imp(arrays=["departure_rankings", "cost_matrix_1d", "dst_min", "r"], float_consts=fc, builtins={"zeros": zeros},
+                     callees={"_improve_one_ranking": C("improve_one_ranking_gen", ["=", 0], True)})
+    text, eff = imp.function(find_function(tree, "_bio_consert"), "bio_consert_gen",
+                             [("departure_rankings", "list Z"), ("cost_matrix_1d", "list Z"), ("n", "Z"), ("nb_rankings_departure", "Z"), ("dst_min", "list Z")],
+                             ["departure_rankings", "dst_min"], "list Z * list Z")
+    if not eff:
+        raise Unsupported("_bio_consert: expected to call the local search")
     out += text
     return out
 
